@@ -103,26 +103,7 @@ def rule_b(ctx, out):
                     out.bad(f"commutative-from-unknown:{f.name}", f"record field commutative is computed as `{txt}`", where(f, st))
     if n < 5:
         raise AnalysisError("fewer than 5 assignments of the record field commutative found")
-    # compare_variables: swapped retry only under the flag
-    cv = ctx.func(f"{V}.compare_variables")
-    cfg = ctx.cfg(cv)
-    retry = [n_ for n_ in cfg.nodes if n_.ast is not None and n_.kind in ("stmt", "test") and "len(inpt_opt) - j - 1" in norm(n_.ast).replace("len(inpt_opt)-j-1", "len(inpt_opt) - j - 1")]
-    if not retry:
-        raise AnalysisError("compare_variables: operand-swapped retry not found")
-    tests = [t for t in cfg.nodes if t.kind == "test" and "commutative" in norm(t.ast)]
-    for r in retry:
-        ok = any(cfg.edge_dominated_by_branch(r, t, "T") and not isinstance(t.ast, ast.UnaryOp) and "not elem_origin" not in norm(t.ast).split(" and ")[-1]
-                 for t in tests)
-        if ok:
-            out.ok({"compare_variables": "swapped comparison only under elem_origin['commutative']"})
-        else:
-            out.bad("compare_variables:unconditional-swap", "the operand-swapped comparison is reachable for non-commutative operations", where(cv, r.ast))
-    # non-commutative mismatch must reject
-    rej = [t for t in tests if "not" in norm(t.ast)]
-    if rej:
-        out.ok({"compare_variables": "mismatch on a non-commutative operation rejects"})
-    else:
-        out.bad("compare_variables:noncommutative-mismatch-accepted", "a mismatch of ordered operands no longer rejects for non-commutative operations", where(cv))
+    # (the operand-swapped retry of compare_variables is decided behaviourally by C05.i)
 
 
 def _accepting_returns(cfg):
@@ -133,6 +114,17 @@ def _accepting_returns(cfg):
             first = a.value.elts[0] if isinstance(a.value, ast.Tuple) and a.value.elts else a.value
             if not (isinstance(first, ast.Constant) and first.value is False):
                 res.append(n)
+    return res
+
+
+def _params_of(expr, f):
+    from ..core.flow import single_assignments
+    names = {x.id for x in ast.walk(expr) if isinstance(x, ast.Name)}
+    res = names & set(f.params)
+    sa_ = single_assignments(f.node)
+    for nm in names - set(f.params):
+        for (_, v, _i) in sa_.get(nm, []):
+            res |= {x.id for x in ast.walk(v) if isinstance(x, ast.Name)} & set(f.params)
     return res
 
 
@@ -156,12 +148,15 @@ def rule_c(ctx, out):
                 if key == "compare_dependences":
                     key += ":" + (a.value.args[-1].value if isinstance(a.value.args[-1], ast.Constant) else "?")
                 comps[key] = (n, flag)
-            elif isinstance(a.value, ast.Compare) and "src" in norm(a.value):
-                comps["source_stack"] = (n, flag)
+            elif isinstance(a.value, ast.Compare) and len(a.value.ops) == 1 and isinstance(a.value.ops[0], ast.Eq) \
+                    and {p_ for s_ in (a.value.left, a.value.comparators[0]) for p_ in _params_of(s_, f)} == set(f.params[:2]):
+                comps["source_stack"] = (n, flag)     # a direct equality between something of the first and something of the second specification
     need = ["source_stack", "compare_target_stack", "compare_dependences:storage", "compare_dependences:memory", "compare_storage_userdef_ins"]
     for k in need:
         if k not in comps:
-            out.bad(f"are_equals:component-not-compared:{k}", f"are_equals no longer compares `{k}`", where(f))
+            # whether every component is *looked at* is decided behaviourally by C05.i; this rule adds the path argument
+            # (no accepting return without the comparison) for the components it can recognise
+            out.unproven.append({"site": f"are_equals:{k}", "reason": "comparison not in the recognised form `flag = compare(...)`; sensitivity is decided by C05.i"})
             continue
         node, flag = comps[k]
         hits = propagate_unverified(cfg, node, flag, lambda n: False, lambda n: n in acc)
@@ -537,7 +532,11 @@ def rule_i(ctx, out):
     n = 0
     import copy
     for name, a in bases.items():
-        for label, b in (("identical", copy.deepcopy(a)), ("renamed", _renamed(a))):
+        swapped = _renamed(a)
+        for r_ in swapped["user_instrs"]:
+            if r_["commutative"] and len(r_["inpt_sk"]) == 2:
+                r_["inpt_sk"].reverse()
+        for label, b in (("identical", copy.deepcopy(a)), ("renamed", _renamed(a)), ("renamed, operands of the commutative operations swapped", swapped)):
             n += 1
             if verdict(copy.deepcopy(a), b):
                 out.ok({"base": name, "pair": label, "verdict": "equal"})
